@@ -1,5 +1,6 @@
 import MesaModel.Proofs.Signals
 import MesaModel.Proofs.SignalsReentrant
+import MesaModel.Proofs.SignalsSlices
 /-!
 # C16 — signals describe every change exactly once, to exactly the subscribers
 
@@ -145,7 +146,8 @@ theorem C16_assign_payload (s : St) (n : Nat) (v : Int) :
     for the list `n` — with their `old` / `new` / `index` payloads, `old` being checked against the copy —
     to a copy of the list as it was yields the list as it is afterwards.  Covers whole-list assignment,
     `[]=`, slice assignment, `del` (index and slice), `insert`, `append`, `pop`, `remove`, `extend`, `+=`,
-    `reverse`, `clear`, and rejected calls (no signal, no change). -/
+    `reverse`, `clear`, assignment to and deletion of extended slices (open bounds, any step), and rejected
+    calls (no signal, no change). -/
 theorem C16_signals_track_list (s : St) (op : Op) (n : Nat) (hobs : ∀ v, op ≠ .assign n v) :
     replay ((s.lists n).getD []) ((emitted s op).filter fun sig => sig.name == n) =
       some (((step s op).1.lists n).getD []) := by
@@ -275,6 +277,78 @@ example : (run (init exDecls) [.observe .all (.one .append) 7, .lassign 1 [], .o
     [.err .value, .ok [], .ok [], .ok [],
      .ok [(7, ⟨1, .append, .none, .int 5, .int 0⟩), (7, ⟨1, .append, .none, .int 5, .int 0⟩)], .ok [], .ok []] := by
   decide
+
+/-! ### extended slices: `lst[a:b:c] = vs`, `del lst[a:b:c]` with open bounds, steps other than 1, negative steps -/
+
+/-- **An extended slice is rejected exactly when Python rejects it**: `ValueError` for step 0 and — for a step other
+    than 1 — for a number of items different from the number of selected positions; nothing changes, nothing is
+    signalled then (`C18_signals_reject_unchanged`). -/
+theorem C16_slicex_set_rejected_iff (n : Nat) (d : List Int) (sl : Slc) (vs : List Int) :
+    (∃ e, pSetSliceX n d sl vs = .error e) ↔
+      (sl.c.getD 1 = 0 ∨ (sl.c.getD 1 ≠ 1 ∧ ∀ idx, sl.indices d.length = some idx → vs.length ≠ idx.length)) := by
+  unfold pSetSliceX getSliceX setSliceX Slc.indices
+  cases ha : sl.adjust d.length with
+  | none =>
+    have h0 : sl.c.getD 1 = 0 := by
+      unfold Slc.adjust at ha
+      simp only at ha
+      split at ha
+      · assumption
+      · cases ha
+    simp [h0]
+  | some t =>
+    obtain ⟨start, stop, step⟩ := t
+    obtain ⟨h0, hst, _, _⟩ := Slc.adjust_bounds ha
+    subst hst
+    simp only [Option.map_some]
+    by_cases h1 : sl.c.getD 1 = 1
+    · simp [h1]
+    · by_cases hl : vs.length = ((List.range (sliceLen start stop (sl.c.getD 1))).map
+          fun (j : Nat) => (start + (j : Int) * sl.c.getD 1).toNat).length
+      · simp [h1, h0, hl]
+      · simp only [List.length_map, List.length_range] at hl
+        simp [h1, h0, hl]
+
+/-- **Every position an extended slice selects exists**, whatever the bounds (open, negative, beyond the end) and
+    the step: the payload `old` of the signal lists real items. -/
+theorem C16_slicex_positions_exist {sl : Slc} {len : Nat} {idx : List Nat} (h : sl.indices len = some idx) :
+    ∀ k ∈ idx, k < len :=
+  Slc.indices_in_range h
+
+/-- **An assignment to a slice with a step other than 1 touches only the selected positions**: the list keeps its
+    length and every other item. -/
+theorem C16_slicex_extended_set_frame {d d' : List Int} {sl : Slc} {vs : List Int} (hc : sl.c.getD 1 ≠ 1)
+    (h : setSliceX d sl vs = some d') :
+    d'.length = d.length ∧ ∀ idx, sl.indices d.length = some idx → ∀ k, k ∉ idx → d'.getD k 0 = d.getD k 0 := by
+  unfold setSliceX at h
+  cases ha : sl.adjust d.length with
+  | none => simp [ha] at h
+  | some t =>
+    obtain ⟨start, stop, step⟩ := t
+    obtain ⟨_, hst, _, _⟩ := Slc.adjust_bounds ha
+    cases hi : sl.indices d.length with
+    | none => simp [ha, hi] at h
+    | some idx =>
+      simp only [ha, hi] at h
+      rw [if_neg (by rw [hst]; exact hc)] at h
+      split at h
+      · cases h
+      · injection h with h
+        subst h
+        refine ⟨foldl_set_length _ _, fun idx' hidx' k hk => ?_⟩
+        injection hidx' with hidx'
+        subst hidx'
+        exact foldl_set_other _ _ k fun p hp hpk => hk (hpk ▸ (List.of_mem_zip hp).1)
+
+/-- non-vacuity / what Python does: `d[::2] = [7, 8, 9]`, `d[::-1]` selects everything backwards, `del d[1::2]`, a
+    wrong number of items and step 0 are rejected -/
+example : setSliceX [0, 1, 2, 3, 4] ⟨none, none, some 2⟩ [7, 8, 9] = some [7, 1, 8, 3, 9] := by decide
+example : getSliceX [0, 1, 2, 3, 4] ⟨none, none, some (-1)⟩ = some [4, 3, 2, 1, 0] := by decide
+example : getSliceX [0, 1, 2, 3, 4] ⟨some (-2), some (-9), some (-2)⟩ = some [3, 1] := by decide
+example : delSliceX [0, 1, 2, 3, 4] ⟨some 1, none, some 2⟩ = some [0, 2, 4] := by decide
+example : setSliceX [0, 1, 2, 3, 4] ⟨none, none, some 2⟩ [7, 8] = none := by decide
+example : getSliceX [0, 1, 2] ⟨none, none, some 0⟩ = none := by decide
+example : setSliceX [0, 1, 2, 3, 4] ⟨some 3, some 1, none⟩ [7] = some [0, 1, 2, 7, 3, 4] := by decide
 
 /-! ### handlers that subscribe / unsubscribe / clear while they are being notified
 
